@@ -39,6 +39,10 @@ def run(ctx: Ctx):
   for r in (r1, r2, r3, r4, r5, r6, r7):
     ctx.guard(r)
   from mlmverif.props import c03
+  ctx.include('R-C16-9', '"delivers exactly one final aggregate result": the'
+              ' master finalises the merged state of ALL stages through'
+              ' get_result, which tolerates the other stages\' entries (R-C03-7)',
+              c03.r7, 'R-C03-7', min_instances=2)
   ctx.include('R-C16-8', 'shard states arrive as a one-shot stream: every stage'
               ' that merges them sees them all (R-C03-6 single-pass discipline)',
               c03.r6, ('chainables.transform', 'chainables.orchestrate'), 'R-C03-6', 8,
